@@ -1,6 +1,7 @@
 package props
 
 import (
+	"image/color"
 	"fmt"
 	"image"
 	"testing"
@@ -84,7 +85,7 @@ func clampLoop(v int) int {
 func checkC08(c *c08Case, o *core.Obs) error {
 	s := c.Seq
 	imgs, durs := seqImages(s)
-	eo := &animation.EncodeOptions{Lossless: true, Quality: c.Quality, Kmin: s.Kmin, Kmax: s.Kmax, LoopCount: s.Loop}
+	eo := &animation.EncodeOptions{Lossless: true, Quality: c.Quality, Kmin: s.Kmin, Kmax: s.Kmax, LoopCount: s.Loop, BackgroundColor: color.NRGBA{R: s.BG[0], G: s.BG[1], B: s.BG[2], A: s.BG[3]}}
 	data, err := animEncode(s.CW, s.CH, imgs, durs, eo, nil, nil, nil, false)
 	if err != nil {
 		return fmt.Errorf("animation encoder failed: %v", err)
